@@ -299,6 +299,13 @@ def gen_cases(rng, tier):
             for _ in range(1 if quick else 6):
                 cases.append({"k": "sessions", "mech": mech, "dir": d, "seed": rng.randrange(1, 60000),
                               "msg": gen_msg(rng, SMALL)})
+    # reflection: the victim's own next record is played back into its incoming stream after `warm` messages each way
+    # (then its receive counter equals the counter the record was sealed with)
+    for mech in ("curve", "noise"):
+        for d in (0, 1):
+            for warm in ((0, 1, 3) if quick else (0, 1, 2, 3, 7, 20)):
+                cases.append({"k": "reflect", "mech": mech, "dir": d, "warm": warm, "seed": rng.randrange(1, 60000),
+                              "msg": gen_msg(rng, SMALL)})
     return cases
 
 
@@ -328,6 +335,8 @@ def to_coq(c):
     mech = 0 if c["mech"] == "curve" else 1
     if c["k"] == "sessions":
         return "(CSessions %d %d [%s])" % (mech, c.get("dir", 0), "; ".join(E.c_fr(f) for f in c["msg"]))
+    if c["k"] == "reflect":
+        return "(CReflect %d %d %d [%s])" % (mech, c.get("dir", 0), c["warm"], "; ".join(E.c_fr(f) for f in c["msg"]))
     hb = "None" if "hb" not in c else "(Some (%d, %d))" % (c["hb"]["ivl"], c["hb"]["timeout"])
     fb = "None" if "fb_tick" not in c else "(Some %d)" % c["fb_tick"]
     return "(CFlow %d %d %s %s [%s] [%s] [%s] %s %s)" % (
@@ -368,6 +377,16 @@ def oracle(c, o):
         return None
     if not o.get("hs"):
         return ("handshake between honest peers failed", None)
+    if c["k"] == "reflect":
+        r = rows[0]
+        if r[2] != 2 * c["warm"]:
+            return ("warm-up exchange between honest peers lost messages (%d of %d delivered)" % (r[2], 2 * c["warm"]), None)
+        if r[3]:
+            return ("the %s authenticated and DELIVERED its own record, played back into its incoming stream after %d messages "
+                    "each way (injected ciphertext accepted)" % ("client" if c.get("dir", 0) == 0 else "server", c["warm"]), None)
+        if not r[4]:
+            return ("a record that does not authenticate was not reported as an error", None)
+        return None
     if o.get("clear"):
         return ("an application payload appears in clear in the bytes emitted on an encrypted connection", None)
     steps = c["steps"]
@@ -481,7 +500,7 @@ def oracle(c, o):
 
 
 def nontrivial(c, o):
-    return any(r and r[0] in (7, 8, 70) for r in o["rows"])
+    return any(r and r[0] in (7, 8, 70, 62) for r in o["rows"])
 
 
 def shrink(c):
